@@ -41,6 +41,9 @@ func Map[K comparable, V any](orig map[K]V) map[K]V {
 }
 
 func OrderedMap[K comparable, V any](orig *orderedmap.OrderedMap[K, V]) *orderedmap.OrderedMap[K, V] {
+	if orig == nil {
+		return orderedmap.NewOrderedMap[K, V]()
+	}
 	if orig.Len() == 0 {
 		return orderedmap.NewOrderedMap[K, V]()
 	}
@@ -101,6 +104,15 @@ func TraverseStringsFunc[T any](v T, fn func(v string) (string, error)) (T, erro
 			copy.Set(copyValue)
 
 		case reflect.Struct:
+			// A struct with unexported fields (a time.Time decoded from a YAML
+			// timestamp, for instance) cannot be rebuilt field by field and
+			// holds no strings to traverse: it is copied as it is
+			for i := range v.NumField() {
+				if !copy.Field(i).CanSet() {
+					copy.Set(v)
+					return nil
+				}
+			}
 			// Loop over each field and call traverseFunc recursively
 			for i := range v.NumField() {
 				if err := traverseFunc(copy.Field(i), v.Field(i)); err != nil {
